@@ -33,27 +33,30 @@ struct Tally {
     lost: u32,
 }
 
-/// one symbolic event for request `tid`: 0 = ack, 1 = error(symbolic code), else lost
-fn deliver(q: &mut PutQuery, s: &mut crate::actor::socket::KrpcSocket, tid: u32, tally: &mut Tally) {
+/// one symbolic event for a request: 0 = ack, 1 = error(symbolic code), else lost.
+/// An answered request is no longer in flight at the socket.  Removing it from the socket table
+/// makes later table indices symbolic (CBMC runs out of memory on that), so the harness gets
+/// the same observable -- `socket.inflight(tid)` false -- by stamping the answered requests
+/// 100 s earlier than the unanswered ones: at the "early" check (t = 100) exactly the answered
+/// requests are no longer in flight, at the "late" check (t = 200) none is.  (The stamps are
+/// not sorted by time as in a real table; only `get`, which searches by tid, is used here.)
+fn draw_event(t: &mut Tally) -> (u8, i32) {
     let ev: u8 = kani::any();
     let code: i32 = kani::any();
     if ev == 0 {
-        s.kani_answered(tid);
-        q.success();
-        tally.acks += 1;
+        t.acks += 1;
     } else if ev == 1 {
-        s.kani_answered(tid);
-        q.error(ErrorSpecific { code, description: String::new() });
         if code == 301 {
-            tally.n301 += 1;
+            t.n301 += 1;
         } else if code == 302 {
-            tally.n302 += 1;
+            t.n302 += 1;
         } else {
-            tally.other += 1;
+            t.other += 1;
         }
     } else {
-        tally.lost += 1;
+        t.lost += 1;
     }
+    (ev, code)
 }
 
 fn check_final(res: &Result<bool, PutError>, is_mutable: bool, t: &Tally) {
@@ -107,7 +110,6 @@ fn check_early(res: &Result<bool, PutError>, is_mutable: bool, n: u32, t: &Tally
 }
 
 fn scenario(n: usize, fixed_kind: Option<u8>) {
-    clock::set(0);
     let mut s = fake_socket(false);
     let kind: u8 = match fixed_kind {
         Some(k) => k,
@@ -116,36 +118,50 @@ fn scenario(n: usize, fixed_kind: Option<u8>) {
     kani::assume(kind < 4);
     let is_mutable = kind == 3;
     let mut q = PutQuery::new(request_of(kind), None);
-    let mut tids = [0u32; 3];
+    let mut t = Tally { acks: 0, n301: 0, n302: 0, other: 0, lost: 0 };
+    let mut evs = [(2u8, 0i32); 3];
     let mut i = 0;
     while i < 3 {
         if i < n {
-            tids[i] = s.kani_add_inflight(SocketAddrV4::new([10, 0, 0, 1 + i as u8].into(), 1));
-            q.inflight_requests.push(tids[i]);
+            evs[i] = draw_event(&mut t);
         }
         i += 1;
     }
-    let mut t = Tally { acks: 0, n301: 0, n302: 0, other: 0, lost: 0 };
+    // every request is added in index order (the table keeps a concrete shape); an answered one is
+    // stamped 100 s earlier than an unanswered one.  PutQuery only observes socket.inflight(tid).
     let mut i = 0;
     while i < 3 {
         if i < n {
-            deliver(&mut q, &mut s, tids[i], &mut t);
+            clock::set(if evs[i].0 <= 1 { 0 } else { 100 });
+            let tid = s.kani_add_inflight(SocketAddrV4::new([10, 0, 0, 1 + i as u8].into(), 1));
+            q.inflight_requests.push(tid);
+        }
+        i += 1;
+    }
+    clock::set(100);
+    let mut i = 0;
+    while i < 3 {
+        if i < n {
+            if evs[i].0 == 0 {
+                q.success();
+            } else if evs[i].0 == 1 {
+                q.error(ErrorSpecific { code: evs[i].1, description: String::new() });
+            }
         }
         i += 1;
     }
     let early = q.check(&s);
     check_early(&early, is_mutable, n as u32, &t);
-    clock::set(100);
+    clock::set(200);
     let late = q.check(&s);
     check_final(&late, is_mutable, &t);
     kani::cover!(matches!(late, Ok(true)));
     kani::cover!(matches!(late, Err(PutError::Query(_))));
-    if fixed_kind.is_none() || fixed_kind == Some(3) {
-        kani::cover!(is_mutable && matches!(late, Err(PutError::Concurrency(_))));
-    }
-    if fixed_kind != Some(3) {
-        kani::cover!(!is_mutable && t.n301 >= 1 && t.acks == 0);
-    }
+    // (instances with a fixed kind make one of these two witnesses inapplicable: trivially true there)
+    let mutable_possible = fixed_kind.is_none() || fixed_kind == Some(3);
+    let other_possible = fixed_kind != Some(3);
+    kani::cover!(!mutable_possible || (is_mutable && matches!(late, Err(PutError::Concurrency(_)))));
+    kani::cover!(!other_possible || (!is_mutable && t.n301 >= 1 && t.acks == 0));
     std::mem::forget(early);
     std::mem::forget(late);
     std::mem::forget(q);
@@ -158,7 +174,7 @@ fn scenario(n: usize, fixed_kind: Option<u8>) {
 //@ standins: tracing
 //@ also: C05 C17
 //@ desc: one replica: for every put kind (announce_peer, announce_signed_peer, put_immutable, put_mutable) and every event for its request (ack, error with any i32 code, lost): check() before expiry and after expiry returns Ok(true) only with an ack, CasFailed/NotMostRecent only for put_mutable and only if a 301/302 was delivered, a query error otherwise, and never 'not done' after expiry
-//@ bounds: n = 1 request; 4 put kinds; symbolic event + i32 code; whole-second clock 0 then 100 s; unwind 6
+//@ bounds: n = 1 request; 4 put kinds; symbolic event + i32 code; answered requests modelled as already expired at the early check; whole-second clock; unwind 6
 //@ stubs: std::time::Instant::now -> symbolic clock; InflightRequests::update_rtt_estimates -> no-op; alloc::fmt::format -> empty
 //@ functions: PutQuery::{success,error,check,is_done,most_common_error,majority_nodes_rejected_put_mutable}, KrpcSocket::inflight
 #[kani::proof]
@@ -250,28 +266,11 @@ fn tok_node(i: u8, has: bool, tok: [u8; 4]) -> Node {
     }
 }
 
-//@ ob: C08.O3
-//@ tier: quick
-//@ cap: 1800
-//@ standins: tracing
-//@ also: C06
-//@ desc: start() through the real KrpcSocket::request (send stubbed by a ghost log): exactly one request per token-bearing node, addressed to that node and carrying that node's own token; none to token-less nodes; extra nodes are addressed too; NoClosestNodes iff the closest list is empty; and C06.O3a: Ok(()) implies the put has a request in flight (otherwise the caller would wait forever)
-//@ bounds: 2 closest nodes + 1 extra node, each with symbolic token presence and symbolic 4-byte token; closest list length symbolic 0..=2; unwind 6
-//@ stubs: std::time::Instant::now -> symbolic clock; KrpcSocket::send -> ghost log; UdpSocket::set_read_timeout -> Ok; Id::random -> fixed id
-//@ functions: PutQuery::{start,started}, KrpcSocket::request, InflightRequests::add
-#[kani::proof]
-#[kani::stub(std::time::Instant::now, clock::now)]
-#[kani::stub(crate::actor::socket::KrpcSocket::send, send_stub)]
-#[kani::stub(std::net::UdpSocket::set_read_timeout, srt_stub)]
-#[kani::stub(crate::common::id::Id::random, rnd::fixed_id)]
-#[kani::unwind(6)]
-fn c08_o3_start_one_request_per_token() {
+fn start_scenario(n: usize) {
     clock::set(0);
     let mut s = fake_socket(false);
     let has: [bool; 3] = kani::any();
     let toks: [[u8; 4]; 3] = kani::any();
-    let n: usize = kani::any();
-    kani::assume(n <= 2);
     let with_extra: bool = kani::any();
     let closest = [tok_node(0, has[0], toks[0]), tok_node(1, has[1], toks[1])];
     let extra: Option<Box<[Node]>> = if with_extra { Some(Box::new([tok_node(2, has[2], toks[2])])) } else { None };
@@ -303,12 +302,62 @@ fn c08_o3_start_one_request_per_token() {
             assert!(expect == 0, "C08.O3 start fails only when nothing could be sent");
         }
     }
-    kani::cover!(n == 2 && sent == 3);
-    kani::cover!(n == 2 && sent == 0);
-    kani::cover!(n == 1 && sent == 1 && !with_extra);
+    kani::cover!(sent == n + 1);
+    kani::cover!(n > 0 && sent == 0);
+    kani::cover!(sent == 1 && !with_extra);
     std::mem::forget(q);
     std::mem::forget(s);
     std::mem::forget(closest);
+}
+
+//@ ob: C08.O3
+//@ tier: quick
+//@ cap: 1800
+//@ standins: tracing
+//@ also: C06
+//@ desc: start() through the real KrpcSocket::request (send stubbed by a ghost log): exactly one request per token-bearing node, addressed to that node and carrying that node's own token; none to token-less nodes; extra nodes are addressed too; and C06.O3a: Ok(()) implies the put has a request in flight (otherwise the caller would wait forever) -- start fails with an error when nothing could be sent
+//@ bounds: 2 closest nodes + optional extra node, each with symbolic token presence and symbolic 4-byte token; unwind 6
+//@ stubs: std::time::Instant::now -> symbolic clock; KrpcSocket::send -> ghost log; UdpSocket::set_read_timeout -> Ok; Id::random -> fixed id
+//@ functions: PutQuery::{start,started}, KrpcSocket::request, InflightRequests::add
+#[kani::proof]
+#[kani::stub(std::time::Instant::now, clock::now)]
+#[kani::stub(crate::actor::socket::KrpcSocket::send, send_stub)]
+#[kani::stub(std::net::UdpSocket::set_read_timeout, srt_stub)]
+#[kani::stub(crate::common::id::Id::random, rnd::fixed_id)]
+#[kani::unwind(6)]
+fn c08_o3_start_one_request_per_token() {
+    start_scenario(2);
+}
+
+//@ ob: C08.O3b
+//@ tier: quick
+//@ cap: 1200
+//@ standins: tracing
+//@ desc: start() with an empty closest list fails with NoClosestNodes and sends nothing, even when extra nodes with tokens are given
+//@ bounds: 0 closest nodes, optional extra node with symbolic token presence; unwind 6
+//@ stubs: as C08.O3
+//@ functions: PutQuery::start
+#[kani::proof]
+#[kani::stub(std::time::Instant::now, clock::now)]
+#[kani::stub(crate::actor::socket::KrpcSocket::send, send_stub)]
+#[kani::stub(std::net::UdpSocket::set_read_timeout, srt_stub)]
+#[kani::stub(crate::common::id::Id::random, rnd::fixed_id)]
+#[kani::unwind(6)]
+fn c08_o3b_start_without_closest() {
+    clock::set(0);
+    let mut s = fake_socket(false);
+    let has: bool = kani::any();
+    let with_extra: bool = kani::any();
+    let extra: Option<Box<[Node]>> = if with_extra { Some(Box::new([tok_node(2, has, [1, 2, 3, 4])])) } else { None };
+    let mut q = PutQuery::new(request_of(0), extra);
+    let r = q.start(&mut s, &[]);
+    assert!(matches!(r, Err(PutError::Query(PutQueryError::NoClosestNodes))), "C08.O3 NoClosestNodes iff no closest nodes");
+    assert!(unsafe { SENT_N } == 0 && !q.started(), "C08.O3 nothing sent without closest nodes");
+    kani::cover!(with_extra && has);
+    kani::cover!(!with_extra);
+    std::mem::forget(r);
+    std::mem::forget(q);
+    std::mem::forget(s);
 }
 
 //@ ob: C05.O4a
@@ -316,16 +365,16 @@ fn c08_o3_start_one_request_per_token() {
 //@ cap: 900
 //@ standins: tracing
 //@ also: C08
-//@ desc: counters do not wrap: 256 acknowledgements (255 closest + extra nodes) and 256 identical error replies are counted without overflow, and the put still reports Ok
-//@ bounds: concrete 256 + 256 events on one query; harness loops unwound 258 times, every other loop 6
+//@ desc: the acknowledgement counter does not wrap: 256 acknowledgements (255 closest + extra nodes) are counted without overflow and the put reports Ok
+//@ bounds: concrete 256 acks on one query; harness loop unwound 258 times, every other loop 6
 //@ stubs: std::time::Instant::now -> symbolic clock; InflightRequests::update_rtt_estimates -> no-op
-//@ functions: PutQuery::{success,error,check}
-//@ unwindset: kani_h::c05_o4a_counters_256 = 258
+//@ functions: PutQuery::{success,check}
+//@ unwindset: kani_h::c05_o4a_ack_counter_256 = 258
 #[kani::proof]
 #[kani::stub(std::time::Instant::now, clock::now)]
 #[kani::stub(crate::actor::socket::InflightRequests::update_rtt_estimates, rtt_stub)]
 #[kani::unwind(6)]
-fn c05_o4a_counters_256() {
+fn c05_o4a_ack_counter_256() {
     clock::set(0);
     let mut s = fake_socket(false);
     let tid = s.kani_add_inflight(SocketAddrV4::new([10, 0, 0, 1].into(), 1));
@@ -336,6 +385,36 @@ fn c05_o4a_counters_256() {
         q.success();
         i += 1;
     }
+    clock::set(100);
+    let r = q.check(&s);
+    assert!(matches!(r, Ok(true)), "C05.O4 256 acknowledgements still mean Ok");
+    kani::cover!(true);
+    std::mem::forget(r);
+    std::mem::forget(q);
+    std::mem::forget(s);
+}
+
+//@ ob: C05.O4c
+//@ tier: thorough
+//@ cap: 2400
+//@ mem: 28
+//@ standins: tracing
+//@ also: C08
+//@ desc: the per-code error counter does not wrap: 256 identical 301 replies are counted without overflow and a put_mutable reports CasFailed
+//@ bounds: concrete 256 error replies; harness loop unwound 258 times, every other loop 6
+//@ stubs: std::time::Instant::now -> symbolic clock; InflightRequests::update_rtt_estimates -> no-op
+//@ functions: PutQuery::{error,check}
+//@ unwindset: kani_h::c05_o4c_error_counter_256 = 258
+#[kani::proof]
+#[kani::stub(std::time::Instant::now, clock::now)]
+#[kani::stub(crate::actor::socket::InflightRequests::update_rtt_estimates, rtt_stub)]
+#[kani::unwind(6)]
+fn c05_o4c_error_counter_256() {
+    clock::set(0);
+    let mut s = fake_socket(false);
+    let tid = s.kani_add_inflight(SocketAddrV4::new([10, 0, 0, 1].into(), 1));
+    let mut q = PutQuery::new(request_of(3), None);
+    q.inflight_requests.push(tid);
     let mut i = 0u32;
     while i < 256 {
         q.error(ErrorSpecific { code: 301, description: String::new() });
@@ -343,7 +422,7 @@ fn c05_o4a_counters_256() {
     }
     clock::set(100);
     let r = q.check(&s);
-    assert!(matches!(r, Ok(true)), "C05.O4 256 acknowledgements still mean Ok");
+    assert!(matches!(r, Err(PutError::Concurrency(ConcurrencyError::CasFailed))), "C05.O4 256 error replies counted without wrapping");
     kani::cover!(true);
     std::mem::forget(r);
     std::mem::forget(q);
